@@ -1089,6 +1089,12 @@ func (se *stanzaEncoder) EncodeToken(t xml.Token) error {
 			var foundID, foundFrom bool
 			attrs := tok.Attr[:0]
 			for _, attr := range tok.Attr {
+				// The id and from attributes of a stanza have no namespace: other
+				// attributes that share their local name (eg. x:id) are payload.
+				if attr.Name.Space != "" {
+					attrs = append(attrs, attr)
+					continue
+				}
 				switch attr.Name.Local {
 				case "id":
 					// RFC6120 § 8.1.3
